@@ -38,7 +38,10 @@ def s_laws():
         "n": st.integers(-8, 8),
         # geometric relation between the operands: independent, or rotations about parallel axes (same direction, different
         # points - such motions do NOT commute), or about one common axis (these do)
-        "relate": st.sampled_from(["free", "free", "free", "parallel_axes", "same_axis"])}))
+        # ... or nearly related: Y (and Z) are a multiple of X as exponential coordinates, up to a relative 1e-9 .. 1e-4 (nearly
+        # collinear twists, nearly shared rotation centres: these do NOT commute exactly)
+        "relate": st.sampled_from(["free", "free", "free", "parallel_axes", "same_axis", "nearly_scaled"]),
+        "relk": gens.fl(0.2, 1.0), "releps": gens.logmag(-9, -4)}))
 
 
 def tree(nleaves, depth):
@@ -155,7 +158,29 @@ def _laws(case):
     c = Checker("laws", cls=cn, n=case["n"])
     sx, sy, sz = case["X"], case["Y"], case["Z"]
     rel = case.get("relate", "free")
-    if rel != "free" and "rot" in sx:
+    if rel == "nearly_scaled":
+        import copy as _copy
+        k_, e_ = case.get("relk", 0.7), case.get("releps", 1e-7)
+        out_ = []
+        for j_, kk in enumerate((k_, -0.6 * k_)):
+            s_ = _copy.deepcopy(sx)
+            tm = max(1e-3, max(abs(x) for x in sx["t"]))
+            s_["t"] = [kk * x for x in sx["t"]]
+            s_["t"][j_ % len(s_["t"])] += e_ * tm
+            if "rot" in s_:
+                ax = list(sx["rot"]["axis"])
+                am = max(abs(x) for x in ax)
+                ax[(j_ + 1) % 3] += e_ * am
+                s_["rot"] = {"axis": [x * (1.0 if kk > 0 else -1.0) for x in ax], "angle": abs(kk) * sx["rot"]["angle"], "via": "rod"}
+            else:
+                s_["angle"] = kk * sx["angle"] * (1.0 + e_)
+            out_.append(s_)
+        sy, sz = out_
+        if "rot" in sx and sx["rot"].get("via") == "cube":
+            sx = dict(sx, rot=dict(sx["rot"], via="rod"))
+        if "rot" in sx:
+            sx = dict(sx, rot={k2: v2 for k2, v2 in sx["rot"].items() if k2 != "noise"})
+    elif rel != "free" and "rot" in sx:
         import copy as _copy
         sy, sz = _copy.deepcopy(sy), _copy.deepcopy(sz)
         for s_ in (sy, sz):
